@@ -2,6 +2,7 @@ SPECIFICATION Spec
 CONSTANTS
   Configs <- ConfigsBoundaryQuick
   Budget = 1
+  Window <- WindowBoundary
   Bug = "none"
 INVARIANT TableAtDone
 INVARIANT TableStaysOK
